@@ -107,6 +107,21 @@ def build(case: Case):
     return m, b, tokens, acts
 
 
+def set_bar(m, toks: dict, ts=None):
+    """move the market to another bar: new indices and prices for the same tokens (what Actuator does once per row)"""
+    import pandas as pd
+    from demeter import MarketStatus
+    names = list(toks)
+    mi = pd.MultiIndex.from_product([names, COLS])
+    data = []
+    for n in names:
+        t = toks[n]
+        data += [D(0), D(0), D(0), D(t["li"]), D(t["bi"])]
+    st = MarketStatus(ts or TS)
+    st.data = pd.Series(index=mi, data=data)
+    m.set_market_status(data=st, price=pd.Series({n: D(toks[n]["p"]) for n in names}))
+
+
 def row_of(m, name):
     r = m._risk_parameters.loc[name]
     d = m._market_status.data[name]
